@@ -315,7 +315,7 @@ func (c *Chain) Project() State {
 	if pool, ok := a.NodeKeeper.GetPool(ctx); ok {
 		acc, okA := decScaled(pool.AccRewardPerByte.Amount, 9) // per byte -> per 1e6 bytes, in milli
 		inex("pool.acc", okA)
-		s.Pool = PPool{Pledged: pool.TotalPledged.Amount.Int64(), Reward: pool.TotalReward.Amount.Int64(), Acc: acc, Storage: pool.TotalStorage, Blocks: pool.RewardedBlockCount}
+		s.Pool = PPool{Pledged: pool.TotalPledged.Amount.Int64(), Reward: new(big.Int).Sub(pool.TotalReward.Amount.BigInt(), c.rewardBase()).Int64(), Acc: acc, Storage: pool.TotalStorage, Blocks: pool.RewardedBlockCount}
 	}
 	s.Round = -1
 	if r, ok := a.NodeKeeper.GetNodeRound(ctx); ok {
